@@ -136,6 +136,13 @@ public:
         "Pointer arithmetic overflowed a pointer beyond sandbox memory");      \
                                                                                \
       return tainted<T, T_Sbx>::internal_factory(reinterpret_cast<T>(target)); \
+    } else if constexpr (std::is_pointer_v<decltype(raw_rhs)>) {               \
+      /* "3 + tainted_ptr" is pointer arithmetic just like "tainted_ptr + 3" */ \
+      /* and gets the same null and bounds checks */                           \
+      static_assert(detail::rlbox_is_wrapper_v<T_Rhs>,                         \
+                    "Cannot perform arithmetic with a raw pointer");           \
+      tainted<decltype(raw_rhs), T_Sbx> rhs_ptr = rhs;                         \
+      return rhs_ptr opSymbol impl();                                          \
     } else {                                                                   \
       auto raw = impl().get_raw_value();                                       \
       auto ret = raw opSymbol raw_rhs;                                         \
